@@ -153,6 +153,6 @@ def run(ctx):
                 ctx.ob('T7.fill', ci.fq, 'every chunk is yielded only after the fill flag was consulted for it (all source types padded alike)',
                        ok, loc=loc(ci, o.node), path=p.describe() if not ok else None)
     if n_y == 0:
-        ctx.ob('T7.fill', ci.fq, 'chunked_iter yields', False, loc=ci.loc)
+        ctx.unknown('T7.fill', ci.fq, 'no yield found', ci.loc)
     for r, n in (('T17', 11), ('T3', 8), ('T16', 2), ('T2.split', 1), ('T7.end', 2), ('T7.fill', 1), ('T23', 1)):
         ctx.need(r, n)
